@@ -60,6 +60,34 @@ def result_tables(schema):
     return out, digest(meta)
 
 
+def rst_entries(rst):
+    """rows of the input-parameter list-tables of a generated parameter reference (.rst), as schema-like entries:
+    Name, Preferred Units, Default Value Type, Default Value, Min, Max exactly as rendered."""
+    import ast
+    inputs = rst.split('\nOutputs\n####')[0]
+    out = []
+    for chunk in inputs.split('\n       * - ')[1:]:
+        f = chunk.split('\n         - ')
+        if len(f) != 7:
+            raise ValueError(f'unrecognised rst row: {chunk[:80]!r}')
+        name, _, units, typ, default, lo, hi = (x.strip('\n') if i < 6 else x.split('\n')[0] for i, x in enumerate(f))
+        if name == 'Name':
+            continue
+        if typ == 'boolean':
+            deftxt = {'True': 'true', 'False': 'false'}.get(default, 's:' + default)
+        elif typ == 'array':
+            try:
+                deftxt = paramtable.canon(ast.literal_eval(default))
+            except (ValueError, SyntaxError):
+                deftxt = 's:' + default
+        else:
+            deftxt = 'null' if default == 'None' else 's:' + default     # str(None) is how a missing default is rendered
+        out.append({'name': name, 'type': typ, 'units': '' if units == 'None' else units, 'category': '', 'default': numv(default) if typ in ('number', 'integer') else None,
+                    'deftxt': deftxt, 'min': numv(lo), 'max': numv(hi), 'enum': [], 'digest': digest(f[2:]),
+                    'raw': {'Preferred Units': units, 'Default Value Type': typ, 'Default Value': default, 'Min': lo, 'Max': hi}})
+    return out
+
+
 _CACHE = {}
 
 
@@ -81,6 +109,8 @@ def load():
     d['com_request'], d['com_required'], d['com_request_meta'] = request_tables(com['request'])
     d['gen_hip'], d['gen_hip_required'], d['gen_hip_meta'] = request_tables(hreq)
     d['com_hip'], d['com_hip_required'], d['com_hip_meta'] = request_tables(com['hip_request'])
+    d['gen_rst'] = rst_entries(GeophiresXSchemaGenerator().generate_parameters_reference_rst())
+    d['gen_hip_rst'] = rst_entries(HipRaXSchemaGenerator().generate_parameters_reference_rst())
     d['gen_result'], d['gen_result_meta'] = result_tables(res)
     d['com_result'], d['com_result_meta'] = result_tables(com['result'])
     # noinspection PyProtectedMember
@@ -115,7 +145,7 @@ def gen_schematables(ctx):
     t = ('(* GENERATED by tools/gen/schematables.py from the schema generator and the committed JSON files; do not edit *)\n'
          'From Coq Require Import QArith ZArith List String.\nFrom Verif Require Import Base.ParamRec Model.Schema.\n'
          'Import ListNotations.\nOpen Scope string_scope.\nOpen Scope Q_scope.\n\n')
-    for k in ('gen_request', 'com_request', 'gen_hip', 'com_hip'):
+    for k in ('gen_request', 'com_request', 'gen_hip', 'com_hip', 'gen_rst', 'gen_hip_rst'):
         t += coq_list(k, 'sentry', [coq_entry(e) for e in d[k]])
     for k in ('gen_required', 'com_required', 'gen_hip_required', 'com_hip_required', 'geo_classes', 'hip_classes'):
         t += coq_list(k, 'string', [cs(x) for x in d[k]])
